@@ -22,7 +22,7 @@ ROOTS = ["_shape_storage", "_treepath_storage", "_treeflatten_storage"]
 
 def Lbl(index_t, structure_t):
     """the '?' label of leaf `index` in structure `structure` (statement of set_treepath_memo)."""
-    return z3.Concat(z3.StringVal("(Leaf "), z3.Function("py_str_int", INT, STR)(index_t), z3.StringVal(" in structure "), structure_t, z3.StringVal(") "))
+    return z3.Concat(z3.StringVal("(Leaf "), __import__("pyvc.engine", fromlist=["str_int"]).str_int(index_t), z3.StringVal(" in structure "), structure_t, z3.StringVal(") "))
 
 
 def mk_frame(st, tag):
@@ -287,7 +287,7 @@ def build(repo=None):
     # string lemmas about labels (C16): distinct positions give distinct keys; a label never equals an identifier-initial key
     i, j = z3.Ints("i j")
     T, x = z3.Strings("T x")
-    str_int = z3.Function("py_str_int", INT, STR)
+    from ..engine import str_int
     obligations.append({"clause": "lemma:label-injective-in-leaf-index", "kind": "vc", "path": [], "meta": {},
                         "pc": [z3.Concat(Lbl(i, T), x) == z3.Concat(Lbl(j, T), x),
                                # str(int) is injective and contains no blank (assumed property of int.__str__)
